@@ -1,0 +1,27 @@
+//go:build verif
+// +build verif
+
+package ggql
+
+// Verification hooks, compiled in only with the "verif" build tag. They let an
+// external monitor observe scanner progress and widen the windows between
+// critical sections; with the tag off they are empty functions (verif_off.go).
+
+// VerifYield, when non-nil, is called with a site name at points where a
+// goroutine is outside ggql's own critical sections.
+var VerifYield func(site string)
+
+// VerifTick, when non-nil, is called once per byte-read step of the scanner.
+var VerifTick func()
+
+func verifYield(site string) {
+	if f := VerifYield; f != nil {
+		f(site)
+	}
+}
+
+func verifTick() {
+	if f := VerifTick; f != nil {
+		f()
+	}
+}
